@@ -8,6 +8,7 @@ package main
 import (
 	"fmt"
 	"go/constant"
+	"go/types"
 	"os/exec"
 	"sort"
 	"strings"
@@ -87,6 +88,117 @@ func runSyntactic(cfg *PropConfig, run *PropRun) (int, []Failure) {
 			}
 			if !ok {
 				fails = append(fails, Failure{Family: "syntactic/" + s, Err: "constant does not have the recorded value (branches pruned on it are no longer dead)"})
+			}
+		case strings.HasPrefix(s, "field-access:"):
+			// field-access:<pkg>::<Type>.<field> <= f1,f2 : the field is read or written only inside the listed functions
+			body := strings.TrimPrefix(s, "field-access:")
+			parts := strings.SplitN(body, "<=", 2)
+			target := expandKey(strings.TrimSpace(parts[0]))
+			i := strings.LastIndex(target, ".")
+			tkey, fname := target[:i], target[i+1:]
+			allowed := map[string]bool{}
+			for _, a := range strings.Split(parts[1], ",") {
+				allowed[expandKey(strings.TrimSpace(a))] = true
+			}
+			var bad []string
+			found := false
+			for _, fn := range allFns {
+				if fn.Pkg == nil || !strings.HasPrefix(fn.Pkg.Pkg.Path(), libPrefix) {
+					continue
+				}
+				for _, b := range fn.Blocks {
+					for _, ins := range b.Instrs {
+						var st types.Type
+						var fi int
+						switch x := ins.(type) {
+						case *ssa.FieldAddr:
+							st, fi = derefT(x.X.Type()), x.Field
+						case *ssa.Field:
+							st, fi = x.X.Type(), x.Field
+						default:
+							continue
+						}
+						n, ok := st.(*types.Named)
+						if !ok || n.Obj().Pkg() == nil {
+							continue
+						}
+						if n.Obj().Pkg().Path()+"::"+n.Obj().Name() != tkey {
+							continue
+						}
+						if st.Underlying().(*types.Struct).Field(fi).Name() != fname {
+							continue
+						}
+						found = true
+						caller := funcKey(fn)
+						if fn.Parent() != nil {
+							caller = funcKey(fn.Parent())
+						}
+						if !allowed[caller] {
+							bad = append(bad, caller)
+						}
+					}
+				}
+			}
+			if !found {
+				fails = append(fails, Failure{Family: "syntactic/" + s, Err: "contract unbound: field " + target + " is never accessed"})
+			} else if len(bad) > 0 {
+				sort.Strings(bad)
+				fails = append(fails, Failure{Family: "syntactic/" + s, Err: fmt.Sprintf("field %s accessed outside the allowed functions: %s", target, strings.Join(bad, ", "))})
+			}
+		case strings.HasPrefix(s, "mutex-guarded:"):
+			// mutex-guarded:<func key>:<field> : the body starts with recv.<field>.Lock(); defer recv.<field>.Unlock()
+			// and contains no other Lock/Unlock of that mutex
+			body := strings.TrimPrefix(s, "mutex-guarded:")
+			k := strings.LastIndex(body, ":")
+			fkey, field := expandKey(body[:k]), body[k+1:]
+			fn := run.Eng.findFunc(fkey)
+			if fn == nil || len(fn.Blocks) == 0 {
+				fails = append(fails, Failure{Family: "syntactic/" + s, Err: "contract unbound: " + fkey + " not found"})
+				continue
+			}
+			isMutexCall := func(cc *ssa.CallCommon, method string) bool {
+				sc := cc.StaticCallee()
+				if sc == nil || sc.String() != "(*sync.Mutex)."+method || len(cc.Args) != 1 {
+					return false
+				}
+				ld, ok := cc.Args[0].(*ssa.UnOp)
+				if !ok {
+					return false
+				}
+				fa, ok := ld.X.(*ssa.FieldAddr)
+				if !ok {
+					return false
+				}
+				return derefT(fa.X.Type()).Underlying().(*types.Struct).Field(fa.Field).Name() == field && fa.X == fn.Params[0]
+			}
+			locks, unlocks, deferred := 0, 0, 0
+			firstOK := false
+			seenOther := false
+			for bi, b := range fn.Blocks {
+				for _, ins := range b.Instrs {
+					switch x := ins.(type) {
+					case *ssa.Call:
+						if isMutexCall(x.Common(), "Lock") {
+							locks++
+							if bi == 0 && !seenOther {
+								firstOK = true
+							}
+						} else if isMutexCall(x.Common(), "Unlock") {
+							unlocks++
+						} else {
+							seenOther = true
+						}
+					case *ssa.Defer:
+						if isMutexCall(x.Common(), "Unlock") && bi == 0 {
+							deferred++
+						}
+					case *ssa.Store, *ssa.MapUpdate:
+						seenOther = true
+					}
+				}
+			}
+			if !(locks == 1 && firstOK && deferred == 1 && unlocks == 0) {
+				fails = append(fails, Failure{Family: "syntactic/" + s, Err: fmt.Sprintf("body of %s is not one critical section of %s (Lock calls %d, first=%v, deferred Unlock %d, direct Unlock %d)", fkey, field, locks, firstOK, deferred, unlocks)})
 			}
 		default:
 			fails = append(fails, Failure{Family: "syntactic/" + s, Err: "unknown syntactic obligation"})
